@@ -5,7 +5,7 @@ sys.path.insert(0, os.path.dirname(os.path.dirname(os.path.abspath(__file__))))
 from rsym import native, gate, harness as H
 
 VERIF = native.VERIF
-EVID = os.path.join(VERIF, 'evidence')
+EVID = os.path.join(VERIF, 'evidence') if native.REPO == '/repo' else os.path.join(native.BUILD, 'evidence' + native.alt_suffix())
 KNOWN = os.path.join(VERIF, 'known_findings.json')
 
 def parse_args(prop):
@@ -50,7 +50,7 @@ class Check:
     def setup(self, need_gate=True):
         try:
             self.ast = native.dump_ast()
-            self.ast_path = os.path.join(native.BUILD, 'ast-%s.json' % self.prop)
+            self.ast_path = os.path.join(native.BUILD, 'ast-%s%s.json' % (self.prop, native.alt_suffix()))
             json.dump(self.ast, open(self.ast_path, 'w'))
             self.replay = native.Replay('release')
             self.src_sha = native.sha_sources()
